@@ -311,7 +311,8 @@ def enc_state(st):
 # container's insertRule and its parser refuse on the reference tree; container_tables() cross-checks the parser half
 # against the running implementation (which children survive a parse of '@media all { <child> }').
 MEDIA_FORBIDS = frozenset([2, 3, 10, 5, 1008, 1006])     # @charset @import @namespace @font-face @variables margin
-PAGE_FORBIDS = frozenset([2, 3, 10, 5, 6, 4])            # @charset @import @namespace @font-face @page @media
+# an @page holds margin rules only (what its parser reads back)
+PAGE_FORBIDS = frozenset([0, 1, 2, 3, 4, 5, 6, 10, 1001, 1008])
 _TABLES_CHECKED = []
 
 
